@@ -80,8 +80,10 @@ def show_grid(arr, part):
 # ------------------------------------------------------------------------------------------ padding
 def gen_pad_case(rng, tier):
     n = rng.randint(3, 4 if tier == "quick" else 5)
-    nd = rng.randint(2, n - 1)
-    ns = 1 if (rng.random() < 0.15 and nd < n - 1) else 0
+    ns = rng.choice([0, 0, 0, 0, 1, 1, 2])                 # singly occupied orbitals: ROHF doublets and triplets in ~40% of the cases
+    ns = min(ns, n - 2)
+    nd = rng.randint(1 if ns else 2, max(1 if ns else 2, n - ns - (0 if ns else 1)))
+    nd = min(nd, n - ns)
     occ = [2] * nd + [1] * ns + [0] * (n - nd - ns)
     aufbau = True
     if rng.random() < 0.08:
@@ -162,7 +164,7 @@ def run_pad(ck, n_cases, alias):
         if r is None:
             ck.case("padding", json.dumps(c, sort_keys=True), nontrivial=False, tags=["molecule-rejected"])
             continue
-        tags = ["aufbau" if c["aufbau"] else "non-aufbau", "sym" if c["sym"] else "asym", "rohf" if c["spin"] else "closed",
+        tags = ["aufbau" if c["aufbau"] else "non-aufbau", "sym" if c["sym"] else "asym", ("rohf-spin%d" % c["spin"]) if c["spin"] else "closed",
                 "frozen-virtual" if r["mol"].frozen_virtual else "no-frozen-virtual",
                 "contiguous" if sorted(r["mol"].frozen_occupied) == list(range(r["nfo"])) else "interior"]
         ck.case("padding", json.dumps(c, sort_keys=True), nontrivial=r["nfo"] >= 1 and len(r["A"]) >= 2,
@@ -429,9 +431,11 @@ def vqe_oracles(ck, c, r):
     rep = {"kind": "vqe", "case": c}
     tag = "%s/%s" % (c["mapping"], "utd" if c["utd"] else "alt")
     cls = "ref_state-override/" if (c.get("refstate") and c["style"] != "reference") else ""
-    if abs(r["e_rdm"] - r["e_direct"]) > tol or abs(r["e_est"] - r["e_direct"]) > tol:
-        ck.violation("C13/get_rdm/%senergy/%s" % (cls, tag), "energy_from_rdms(get_rdm(theta)) = %.10f, energy_estimation(theta) = %.10f, <psi|H|psi> of "
-                     "reference circuit + ansatz = %.10f" % (r["e_rdm"], r["e_est"], r["e_direct"]), rep, found_input=True)
+    # (asymmetric stub integrals give a non-Hermitian operator: energy_estimation is then complex, only its real part is compared)
+    e_est = complex(r["e_est"])
+    if abs(r["e_rdm"] - r["e_direct"]) > tol or abs(e_est.real - r["e_direct"]) > tol or (c["sym"] and abs(e_est.imag) > tol):
+        ck.violation("C13/get_rdm/%senergy/%s" % (cls, tag), "energy_from_rdms(get_rdm(theta)) = %r, energy_estimation(theta) = %r, <psi|H|psi> of "
+                     "reference circuit + ansatz = %r" % (r["e_rdm"], r["e_est"], r["e_direct"]), rep, found_input=True)
     # Hermiticity needs a Hermitian Hamiltonian (term list closed under conjugation): only for integrals with the
     # symmetries of real orbitals; the asymmetric stub tensors exercise the index placement only
     if c["sym"]:
@@ -829,6 +833,37 @@ def rdm_checks_uhf(ck, sig, name, rep, mol, e_solver, d1, d2, tol_e, expect=None
         ck.violation(sig + "/pair-symmetry", "%s: same-spin blocks violate D2[p,q,r,s] = D2[r,s,p,q]" % name, rep, found_input=True)
 
 
+def pad_checks(ck, sig, name, rep, mol, e_ref, d1, d2, tol_e, n_act=None, nn1_act=None):
+    """pad_rdms_with_frozen_orbitals_restricted on real density matrices: the padded matrices contracted with the integrals of the SAME
+    molecule without frozen orbitals must give the same energy; traces N_total and N_total(N_total-1) (or the given expectation
+    values + frozen electrons), Hermiticity, arguments untouched."""
+    from tangelo.toolboxes.molecular_computation.rdms import pad_rdms_with_frozen_orbitals_restricted as padr
+    d1, d2 = np.array(d1), np.array(d2)
+    s1, s2 = d1.copy(), d2.copy()
+    p1, p2 = padr(mol, d1, d2)
+    p1, p2 = np.array(p1), np.array(p2)
+    if not (np.array_equal(s1, d1) and np.array_equal(s2, d2)):
+        ck.violation("C13/pad_rdms_with_frozen_orbitals_restricted/input-2rdm-mutated", "%s: the padding helper changed the arrays passed in" % name, rep, found_input=True)
+    full = mol.freeze_mos(None, inplace=False)
+    e_full = full.energy_from_rdms(p1.copy(), p2.copy())
+    nf = 2 * len(mol.frozen_occupied)
+    n_act = mol.n_active_electrons if n_act is None else n_act
+    nn1_act = n_act * (n_act - 1) if nn1_act is None else nn1_act
+    n_tot = n_act + nf
+    nn1_tot = nn1_act + 2 * nf * n_act + nf * (nf - 1)          # <(Na+Nf)(Na+Nf-1)> with Nf frozen electrons fixed
+    ref = "rohf-spin%d" % mol.spin if mol.spin else "rhf"
+    if abs(e_full - e_ref) > tol_e:
+        ck.violation(sig + "/padded-energy/%s" % ref, "%s: full-space energy of the padded matrices %.9f, energy of the active-space matrices / solver %.9f "
+                     "(mo_occ %s, frozen %s)" % (name, e_full, e_ref, np.asarray(mol.mo_occ).astype(int).tolist(), mol.frozen_mos), rep, found_input=True)
+    if abs(np.trace(p1) - n_tot) > 1e-6:
+        ck.violation(sig + "/padded-trace-1rdm/%s" % ref, "%s: padded 1-RDM trace %.6f, expected %.6f" % (name, np.trace(p1).real, n_tot), rep, found_input=True)
+    t2 = np.einsum("ppqq->", p2)
+    if abs(t2 - nn1_tot) > 1e-5:
+        ck.violation(sig + "/padded-trace-2rdm/%s" % ref, "%s: padded 2-RDM trace %.6f, expected %.6f" % (name, t2.real, nn1_tot), rep, found_input=True)
+    if max(np.abs(p1 - p1.conj().T).max(), np.abs(p2 - p2.conj().transpose(1, 0, 3, 2)).max()) > 1e-6:
+        ck.violation(sig + "/padded-hermiticity/%s" % ref, "%s: padded matrices not Hermitian" % name, rep, found_input=True)
+
+
 def run_pyscf_support(ck):
     """classical solvers x references the property quantifies over: FCI, CCSD, MP2 (where RDMs are offered) x
     {RHF, ROHF open shell (doublet, triplet), UHF}; tiny hydrogen systems."""
@@ -838,6 +873,7 @@ def run_pyscf_support(ck):
     from tangelo.algorithms.classical.mp2_solver import MP2Solver
     ck.stream("pyscf-support", "SUPPORT (numerical, not proof): PySCF FCI / CCSD / MP2 density matrices x {RHF, ROHF doublet/triplet, UHF} on small "
               "hydrogen systems with and without frozen orbitals: energy_from_rdms vs solver energy (FCI 1e-6, CCSD 5e-5), 1-RDM trace N, "
+              "with frozen orbitals (restricted, incl. ROHF doublet / triplet): pad_rdms_with_frozen_orbitals_restricted -> full-space energy, traces, "
               "2-RDM trace N(N-1) (per spin block for UHF: na(na-1), na*nb, nb(nb-1)), Hermiticity, pair symmetry; non-trivial = open shell or frozen")
     def chain(n, d):
         return [("H", (0., 0., d * i)) for i in range(n)]
@@ -845,6 +881,9 @@ def run_pyscf_support(ck):
     mols = [("H2-RHF", chain(2, 0.8), 0, 0, None, False), ("H4-RHF-frozen[0]", chain(4, 0.9), 0, 0, [0], False),
             ("H3-ROHF-doublet", chain(3, 0.95), 0, 1, None, False), ("H4-ROHF-triplet", chain(4, 0.9), 0, 2, None, False),
             ("H4+-ROHF-doublet-frozen[3]", chain(4, 0.9), 1, 1, [3], False),
+            ("H4-ROHF-triplet-frozen[0]", chain(4, 0.9), 0, 2, [0], False), ("H4-ROHF-triplet-frozen[3]", chain(4, 1.0), 0, 2, [3], False),
+            ("H3-ROHF-doublet-frozen[2]", chain(3, 0.95), 0, 1, [2], False),
+            ("BeH-ROHF-doublet-frozen[0]", [("Be", (0., 0., 0.)), ("H", (0., 0., 1.34))], 0, 1, [0], False),
             ("H3-UHF-doublet", chain(3, 0.95), 0, 1, None, True), ("H4-UHF-triplet-frozen[[3],[3]]", chain(4, 0.9), 0, 2, [[3], [3]], True)]
     if ck.tier == "thorough":
         for k in range(12):
@@ -893,6 +932,8 @@ def run_pyscf_support(ck):
                     rdm_checks_uhf(ck, sig, name, rep, mol, e, d1, d2, tol, check_energy=(sname != "mp2"))
                 else:
                     rdm_checks_spin_summed(ck, sig, name, rep, mol, e, d1, d2, tol, check_energy=(sname != "mp2"))
+                    if mol.frozen_mos is not None and sname != "mp2" and np.array(d1).shape[0] == mol.n_active_mos:
+                        pad_checks(ck, "C13/pyscf/%s" % sname, name + "/" + sname, dict(rep, pad=True), mol, e, d1, d2, tol)
             except Exception as ex:
                 ck.notes.setdefault("pyscf_check_errors", []).append("%s/%s: %r" % (name, sname, str(ex)[:160]))
 
@@ -911,6 +952,7 @@ def run_pyscf_get_rdm(ck):
         return [("H", (0., 0., d * i)) for i in range(n)]
     # (name, xyz, q, spin, frozen, uhf)
     mols = [("H4-triplet", chain(4, 0.9), 0, 2, None, False), ("H3-quartet", chain(3, 1.0), 0, 3, None, False), ("H2-singlet", chain(2, 0.8), 0, 0, None, False),
+            ("H4-triplet-frozen[3]", chain(4, 0.9), 0, 2, [3], False),
             ("H3-UHF-doublet", chain(3, 0.95), 0, 1, None, True),
             ("H4-UHF-triplet-frozen[[0],[3]]", chain(4, 0.9), 0, 2, [[0], [3]], True),
             ("H3-UHF-doublet-frozen[[0],[]]", chain(3, 0.95), 0, 1, [[0], []], True)]
@@ -968,6 +1010,9 @@ def run_pyscf_get_rdm(ck):
                                  % (name, np.trace(d1).real, np.einsum("ppqq->", d2).real, ex["n"], ex["nn1"]), rep, found_input=True)
                 if max(np.abs(d1 - d1.conj().T).max(), np.abs(d2 - d2.conj().transpose(1, 0, 3, 2)).max()) > 1e-7:
                     ck.violation("C13/pyscf/get_rdm/hermiticity-nonzero-params/%s/spin%d" % (mapping, spin), "%s: RDMs not Hermitian" % name, rep, found_input=True)
+                if mol.frozen_mos is not None:
+                    pad_checks(ck, "C13/pyscf/get_rdm/%s" % mapping, name + "/vqe", dict(rep, pad=True), mol, ex["e"], d1.real, d2.real, 1e-7,
+                               n_act=ex["n"], nn1_act=ex["nn1"])
             except Exception as e:
                 ck.violation("C13/pyscf/get_rdm/crash-nonzero-params/%s/spin%d" % (mapping, spin), "%s: %r" % (name, e), rep, found_input=True)
 
@@ -1104,6 +1149,21 @@ def replay(data):
         if c.get("aufbau", True) and c.get("sym", True):
             bad = bad or res["e_act"] != res["e_full"]
         return 1 if bad else 0
+    if r.get("kind") == "pyscf" and "solver" in r and r.get("pad"):
+        from harness.lib import Check
+        from tangelo.toolboxes.molecular_computation.molecule import SecondQuantizedMolecule
+        from tangelo.algorithms.classical import FCISolver, CCSDSolver
+        mol = SecondQuantizedMolecule([(a, tuple(x)) for a, x in r["xyz"]], r["q"], r["spin"], basis="sto-3g", frozen_orbitals=r["frozen"])
+        sv = {"fci": FCISolver, "ccsd": CCSDSolver}[r["solver"]](mol)
+        e = sv.simulate()
+        d1, d2 = sv.get_rdm()
+        ck = Check.__new__(Check)
+        ck.violations, ck.notes = [], {}
+        ck.violation = lambda sig, desc, rep, found_input=True: ck.violations.append((sig, desc))
+        pad_checks(ck, "C13/pyscf/%s" % r["solver"], r["molecule"], {}, mol, e, d1, d2, 5e-5)
+        for sig, desc in ck.violations:
+            print("FINDING", sig, desc[:300])
+        return 1 if ck.violations else 0
     if r.get("kind") == "pyscf" and "solver" in r:
         from tangelo.toolboxes.molecular_computation.molecule import SecondQuantizedMolecule
         from tangelo.algorithms.classical import FCISolver, CCSDSolver, MP2Solver
